@@ -47,6 +47,21 @@ def run_gqr_partial(B, opt, L, A, N, s, s2):
     return [int(i) for i in piv], steps
 
 
+def run_gqr_edited(B, opt, L_first, L, A, N, s):
+    """one GQR object; the caller keeps ONE region list and ONE ranking array, fits, edits the region list in place, fits again passing
+    the same objects; returns the second fit's (pivots, steps)"""
+    from pysensors.optimizers import GQR
+    g = GQR()
+    Lobj = [int(v) for v in L_first]
+    Aobj = np.array(A, dtype=int)
+    impl.quiet(g.fit, B.copy(), idx_constrained=Lobj, n_sensors=N, n_const_sensors=s, all_sensors=Aobj, constraint_option=opt)
+    Lobj[:] = [int(v) for v in L]
+    steps = []
+    with gqr_trace.trace_gqr(steps):
+        piv = impl.quiet(g.fit, B.copy(), idx_constrained=Lobj, n_sensors=N, n_const_sensors=s, all_sensors=Aobj, constraint_option=opt).get_sensors()
+    return [int(i) for i in piv], steps
+
+
 def listing(rng, L, A):
     """the same region listed in another way: sorted, in rank order, descending, shuffled, or with repeats"""
     form = ["sorted", "rank-order", "descending", "shuffled", "repeats"][int(rng.integers(0, 5))]
@@ -131,7 +146,7 @@ def degenerate_steps(B, piv, N, rel=1e-9):
     return zero, tiny, res
 
 
-def gen_region_case(rng, nmax=9, mmax=5, feasible_only=True, graded=0.0, tiny=0.0, ties=0.0):
+def gen_region_case(rng, nmax=9, mmax=5, feasible_only=True, graded=0.0, tiny=0.0, ties=0.0, faint=0.0):
     n = int(rng.integers(3, nmax + 1))
     m = int(rng.integers(2, min(n, mmax) + 1))
     B = rng.integers(-40, 41, size=(n, m)) / 8.0
@@ -156,7 +171,13 @@ def gen_region_case(rng, nmax=9, mmax=5, feasible_only=True, graded=0.0, tiny=0.
         # entries that are zero only up to round-off (1e-13 ... 1e-19 of the others): leading entries of pivot columns among them
         mask = rng.random(B.shape) < 0.35
         B = np.where(mask, rng.choice([-1.0, 1.0], size=B.shape) * 2.0 ** -rng.integers(44, 64, size=B.shape), B)
-    if L and rng.random() < graded:
+    if L and len(L) < n and rng.random() < faint:
+        # one whole class (the region, or everything outside it) is faint - 2^-55 ... 2^-70 of the other - but independent and non-zero:
+        # a constraint that has to force sensors of that class must still find them
+        B = B.copy()
+        cls = L if rng.random() < 0.5 else [c for c in range(n) if c not in L]
+        B[cls] *= 2.0 ** -float(rng.integers(55, 71))
+    elif L and rng.random() < graded:
         # badly scaled data: the region rows live on a scale 2^27 .. 2^32 times larger (exact in doubles)
         B = B.copy()
         B[L] *= float(2 ** int(rng.integers(27, 33)))
